@@ -15,7 +15,7 @@
    i.e. the future is ready.  In the model every submission to the pool succeeds (enqueue_task returns 0, pinned
    by c07_refused_submission_invalid_future); refusing executors are covered by monitors only. *)
 From Coq Require Import ZArith List Bool.
-Require Import Verif.Gen.Gen_executor Verif.Conc.Machine Verif.EX.EXModel Verif.EX.EXProofs Verif.EX.EXSmallModel Verif.EX.EXSmallProofs Verif.EX.EXLive Verif.EX.EXLive2.
+Require Import Verif.Gen.Gen_executor Verif.Conc.Machine Verif.EX.EXModel Verif.EX.EXProofs Verif.EX.EXSmallModel Verif.EX.EXSmallProofs Verif.EX.EXLive Verif.EX.EXLive2 Verif.EX.EXScope.
 Import ListNotations.
 
 (* usage rules: at least one worker; every task id is written at one place only (one submit in one program, or
@@ -269,3 +269,18 @@ Proof. exact ex_ndemo. Qed.
 Example c07_inplace_demo : inplace_invoke 7 (Task 0 [Task 1 [Task 3 []]; Task 2 []]) {| icur := Some 9; ilog := []; irets := [] |} =
   {| icur := Some 9; ilog := [(0, true); (1, true); (3, true); (2, true)]; irets := [(3, 0%Z); (1, 0%Z); (2, 0%Z); (0, 0%Z)] |}.
 Proof. exact ex_idemo. Qed.
+
+(* ---- nested RunnerScopes on one thread (EXScope; regenerated: the constructor remembers the previous current
+   executor, the destructor writes it back): after any well-bracketed use of other executors' scopes inside a task
+   of executor e the thread still reports e, the outermost scope leaves the thread as it found it, and at every
+   point of every nesting depth the current executor is the one whose scope is innermost ------------------------- *)
+Theorem c07_nested_scopes_restore_running_in : forall e p,
+  run_scopes p (Some e) = Some e /\
+  run_scopes (Nest e p Done) None = None /\
+  Forall (fun m => fst m = snd m) (marks p (Some e) (Some e)).
+Proof. exact nested_scopes_restore. Qed.
+Print Assumptions c07_nested_scopes_restore_running_in.
+Example c07_nested_scopes_demo :
+  marks (Nest 3 (Nest 3 Done Done) (Nest 5 Done Done)) (Some 7%nat) (Some 7%nat) =
+  [(Some 7, Some 7); (Some 3, Some 3); (Some 3, Some 3); (Some 3, Some 3); (Some 7, Some 7); (Some 5, Some 5); (Some 7, Some 7)]%nat.
+Proof. exact ex_scope_demo. Qed.
